@@ -109,15 +109,17 @@ Proof.
   { apply (add_dur_sel (dv_W s) true u a d' Hr ltac:(lia) (or_introl eq_refl)).
     replace (u =? 4) with false by lia. replace (u =? 5) with false by lia. replace (u =? 6) with false by lia. replace (u =? 7) with false by lia. exact Ed. }
   destruct R as [R1 R2]. rewrite R1 in H.
-  unfold create, convert_naive_fixed, convert_naive, gap_at in *.
+  unfold create, convert_naive_fixed, convert_naive in H.
   destruct (dv_fixed s).
-  - injection H as <-. cbn [with_wall dv_W dv_kind dv_zone dv_tzid]. repeat split; try reflexivity. cbv iota. unfold MEG. lia.
+  - injection H as <-. cbn [with_wall dv_W dv_kind dv_zone dv_tzid]. repeat split; try reflexivity. unfold gap_at, MEG. lia.
   - set (A := nshift (dv_W s) u a) in *. set (oa := off_local (dv_zone s) (sec A) true) in *. set (ob := off_local (dv_zone s) (sec A) false) in *.
     destruct (oa >? ob) eqn:Eg.
-    + destruct (wall_in_range (A + MEG * (oa - ob))); [|discriminate]. injection H as <-.
-      cbn [with_wall dv_W dv_kind dv_zone dv_tzid]. repeat split; try reflexivity. cbv iota. unfold MEG. Show. lia.
+    + cbv beta iota zeta in H. set (W' := A + MEG * (oa - ob)) in H.
+      assert (HW : W' = A + MEG * Z.max 0 (oa - ob)) by (unfold W', MEG; lia). clearbody W'.
+      destruct (wall_in_range W'); [|discriminate]. injection H as <-.
+      cbn [with_wall dv_W dv_kind dv_zone dv_tzid]. repeat split; try reflexivity. unfold gap_at. fold A oa ob. exact HW.
     + rewrite andb_false_r in H. injection H as <-.
-      cbn [with_wall dv_W dv_kind dv_zone dv_tzid]. repeat split; try reflexivity. cbv iota. unfold MEG. lia.
+      cbn [with_wall dv_W dv_kind dv_zone dv_tzid]. repeat split; try reflexivity. unfold gap_at. fold A oa ob. unfold MEG. lia.
 Qed.
 
 Section WallUnits.
